@@ -124,7 +124,12 @@ def w_matching(cfg, tier):
                 weights = (as_sa([SymReal(w) for w in W[:n]]), as_sa([SymReal(w) for w in W[n:]]))
                 dec = md.MatchingDecoder(code, model, 0.1, weights=weights)
                 s = code.measure_syndrome(as_sa([Bit(b) for b in E]))
-                return dict(correction=dec.decode(s), dec=dec)
+                first = dec.decode(s)
+                kept = list(np.asarray(first).reshape(-1))
+                # the same object is then asked for the trivial syndrome (simulations reuse decoders)
+                second = dec.decode(np.zeros(code.n_stabilizers, dtype=np.uint8))
+                return dict(correction=as_sa(kept), dec=dec, second=list(np.asarray(second).reshape(-1)),
+                            first_after=list(np.asarray(first).reshape(-1)), kept=kept)
             ps = eng.explore(fn)
     finally:
         md.Matching = old
@@ -135,6 +140,22 @@ def w_matching(cfg, tier):
         zero = [z3.BoolVal(False)] * n
         return z3.And(dec.matcher_x.min_clause(0, zero), dec.matcher_z.min_clause(0, zero))
     common_obligations(col, 'matching', code, E, ps, base, zero_clause=zero_clause)
+    bad2, bad3 = [], []
+    for p in ps:
+        if p.exc is not None:
+            continue
+        v = p.value
+        dec = v['dec']
+        zero = [z3.BoolVal(False)] * n
+        cl = z3.And(dec.matcher_x.min_clause(1, zero), dec.matcher_z.min_clause(1, zero))
+        bad2.append(z3_and(p.pc + [cl, z3_or([bool_term(c) for c in v['second']])]))
+        bad3.append(z3_and(p.pc + [z3_or([z3.Xor(bool_term(a), bool_term(b)) for a, b in zip(v['kept'], v['first_after'])])]))
+
+    def wit(m):
+        return dict(error=[1 if z3.is_true(m.eval(b, model_completion=True)) else 0 for b in E], then_zero=True)
+    col.prove('C05/matching/trivial-syndrome-gives-trivial-correction-on-a-reused-decoder', base, z3_or(bad2), wit,
+              'decode(syndrome of any error) followed by decode(0) on the same object returns 0')
+    col.prove('C05/matching/returned-correction-not-changed-by-a-later-call', base, z3_or(bad3), wit)
     return col.result()
 
 
@@ -320,6 +341,15 @@ def replay(path):
             e = np.array(w['error'], dtype=np.uint8)
             em = PauliErrorModel(0.2, 0.3, 0.5)
             kind = cfg.split()[0]
+            if kind == 'matching' and w.get('then_zero'):
+                dec = MatchingDecoder(code, em, 0.1)
+                c1 = np.asarray(dec.decode(code.measure_syndrome(e)))
+                keep = c1.copy()
+                c2 = np.asarray(dec.decode(np.zeros(code.n_stabilizers, dtype=np.uint8)))
+                print('first', keep.tolist(), 'then zero syndrome ->', c2.tolist(), 'first now', c1.tolist())
+                bad = bool(c2.any()) or bool((keep != c1).any())
+                print('REPLAY', 'reproduced' if bad else 'not-reproduced', oid, cfg)
+                return 0
             if kind == 'matching':
                 dec = MatchingDecoder(code, em, 0.1)
             elif kind == 'bposd':
